@@ -27,6 +27,14 @@ def dbOf (file : List (Str × Entry)) : BibData :=
   | some (db, _) => db
   | none => BibData.init none
 
+/-- decidable equality of `Except` results, for the concrete witnesses -/
+instance decEqExcept {ε α : Type} [DecidableEq ε] [DecidableEq α] : DecidableEq (Except ε α)
+  | .ok a, .ok b => if h : a = b then isTrue (by rw [h]) else isFalse (fun h' => by cases h'; exact h rfl)
+  | .error a, .error b =>
+    if h : a = b then isTrue (by rw [h]) else isFalse (fun h' => by cases h'; exact h rfl)
+  | .ok _, .error _ => isFalse (fun h => by cases h)
+  | .error _, .ok _ => isFalse (fun h => by cases h)
+
 def get (db : BibData) (k : String) : Entry :=
   match db.entries.getItem (s k) with
   | some e => e
@@ -105,16 +113,23 @@ theorem C14_missing_iff_nonvacuous :
 termination proof: each step follows a database key not followed before).  Its answer is the
 same as that of a walk of ANY length ≥ `db.length + 1` along the chain — so going round a cycle
 once more can never change it — and on a chain (cyclic or not) none of whose entries defines the
-field the answer is "missing"; no other outcome exists. -/
+field the answer is "missing".  And it gets there quickly: the lookup instrumented with a counter
+(`findFieldHops`: same answer) follows at most as many cross-references as the database has
+entries, whatever the graph — the bound on the recursion depth (two Python frames per
+cross-reference in the pinned code; iterations of a loop with proposed_fixes/C14-3). -/
 theorem C14_terminates (db : BibData) (hdb : DbWF db) (e : Entry) (he : EntryWF e) (name : Str) :
     (∀ n, db.toS.length + 1 ≤ n →
         e.findField name (some db) = (walk db.toS n e.toS).findSome? (·.own name)) ∧
     ((∀ n, ∀ q ∈ walk db.toS n e.toS, q.own name = none) → e.findField name (some db) = none) ∧
-    (∃ r : Option Str, e.findField name (some db) = r) := by
-  refine ⟨fun n hn => findField_spec hdb he name n hn, ?_, ⟨_, rfl⟩⟩
-  intro h
-  rw [findField_spec hdb he name _ (Nat.le_refl _), List.findSome?_eq_none_iff]
-  exact h _
+    ((findFieldHops (some db) [] e name).1 = e.findField name (some db) ∧
+      (findFieldHops (some db) [] e name).2 ≤ db.toS.length) := by
+  refine ⟨fun n hn => findField_spec hdb he name n hn, ?_, findFieldHops_fst _ _ _ _, ?_⟩
+  · intro h
+    rw [findField_spec hdb he name _ (Nat.le_refl _), List.findSome?_eq_none_iff]
+    exact h _
+  · have := findFieldHops_le db [] e name
+    rw [unvisited_nil, ← toS_length hdb] at this
+    exact this
 
 theorem C14_terminates_nonvacuous :
     -- self reference: own field found, other field missing; mutual reference: found across the cycle, else missing
@@ -123,23 +138,29 @@ theorem C14_terminates_nonvacuous :
     lookup db.toS (get db "m1").toS (s "year") = some (s "2001") ∧
     lookup db.toS (get db "m1").toS (s "note") = none ∧
     lookup db.toS (get db "m2").toS (s "note") = none ∧
-    (walk db.toS 50 (get db "m1").toS).findSome? (·.own (s "note")) = none := by decide
+    (walk db.toS 50 (get db "m1").toS).findSome? (·.own (s "note")) = none ∧
+    -- cross-references followed: two up the chain child → Parent → grand; one round the cycle m1 ⇄ m2 and then it stops
+    findFieldHops (some db) [] (get db "child") (s "year") = (some (s "1984"), 2) ∧
+    findFieldHops (some db) [] (get db "m1") (s "note") = (none, 2) ∧
+    findFieldHops (some db) [] (get db "self") (s "year") = (none, 1) ∧
+    db.toS.length = 7 := by decide +kernel
 
 /-- A dangling reference: the lookup of a field the entry does not define itself is "missing"
-(not a crash), and resolving a citation list that contains the entry reports the bad
-cross-reference. -/
+(not a crash), and resolving a citation list reports the bad cross-reference whenever the entry
+goes into the bibliography — because it is cited or because the threshold appended it. -/
 theorem C14_dangling (db : BibData) (hdb : DbWF db) (c : Str) (e : Entry) (name x : Str)
     (hc : db.entries.getItem c = some e) (hx : e.fields.getItem Pybtex.xrefName = some x)
     (hd : db.entries.getItem x = none) :
     (e.own name = none → e.findField name (some db) = none) ∧
-    (∀ (L : List Str) (m : Int), c ∈ L → Report.badCrossref c x ∈ (db.crossreferenced L m).2) := by
+    (∀ (cits : List Str) (m : Int), c ∈ (db.addExtraCitations cits m).1 →
+      Report.badCrossref c x ∈ (db.addExtraCitations cits m).2) := by
   constructor
   · intro hown
     show findField (some db) [] e name = none
     rw [findField_eq, hown]
     simp [hx, hd]
-  · intro L m hcL
-    rw [crossreferenced_spec hdb]
+  · intro cits m hcL
+    simp only [BibData.addExtraCitations, crossreferenced_spec hdb] at hcL ⊢
     simp only [List.mem_map]
     refine ⟨(c, x), ?_, rfl⟩
     rw [dangling_eq, List.mem_filterMap]
@@ -156,12 +177,19 @@ theorem C14_dangling_nonvacuous :
     (get db "dang").fields.getItem Pybtex.xrefName = some (s "nowhere") ∧
     (db.entries.getItem (s "nowhere")).isNone = true ∧
     lookup db.toS (get db "dang").toS (s "note") = none ∧
-    (db.crossreferenced [s "child", s "dang"] 2).2 = [Report.badCrossref (s "dang") (s "nowhere")] := by decide
+    db.addExtraCitations [s "child", s "dang"] 2 =
+      ([s "child", s "dang"], [Report.badCrossref (s "dang") (s "nowhere")]) ∧
+    -- `dang` is not cited: the threshold appends it (its child `kid` is cited), and its dangling reference is reported
+    (dbOf [(s "kid", entry [("crossref", "dang")] []), (s "dang", entry [("crossref", "nowhere")] [])]).addExtraCitations [s "kid"] 1 =
+      ([s "kid", s "dang"], [Report.badCrossref (s "dang") (s "nowhere")]) := by decide
 
-/-- Both engines see the same thing: the value a BST program gets from a field variable
+/-- Both engines see the same FIELDS: the value a BST program gets from a field variable
 (`Field.value`; `missing$` is 1 exactly for `MissingField`) and the value the template node
 `field` gets in the Python engine (whose formatting context now carries the database) are the
-reference lookup — a value on one side iff the same value on the other, missing iff missing. -/
+reference lookup — a value on one side iff the same value on the other, missing iff missing.
+(Person ROLES reach the Python styles through the `names` node, the label styles and the
+sorting styles, which do not go through this lookup: `C14_python_names_partial`,
+`C14_python_names_neg`.) -/
 theorem C14_engines_agree (db : BibData) (hdb : DbWF db) (e : Entry) (he : EntryWF e) (name : Str) :
     (bstFieldValue db e name = match lookup db.toS e.toS name with
         | some v => BstValue.str v
@@ -181,5 +209,42 @@ theorem C14_engines_agree_nonvacuous :
     DbWF db ∧ EntryWF (get db "child") ∧
     lookup db.toS (get db "child").toS (s "note") = some (s "pn") ∧
     lookup db.toS (get db "m1").toS (s "note") = none := by decide
+
+/-- The Python engine and person roles.  Its templates show persons through the node `names`,
+which reads `entry.persons[role]`: for a role the entry HAS ITSELF (and no field of that name
+hides) this is what the property demands — the persons whose `' and '`-joined names are the
+reference lookup and what a BST program sees. -/
+theorem C14_python_names_partial (db : BibData) (hdb : DbWF db) (e : Entry) (he : EntryWF e) (role : Str)
+    (persons : List Str) (hf : e.fields.getItem role = none) (hp : e.persons.getItem role = some persons) :
+    pythonEngineNames db e role = Except.ok persons ∧
+    lookup db.toS e.toS role = some (joinWith Pybtex.andSep persons) ∧
+    bstFieldValue db e role = BstValue.str (joinWith Pybtex.andSep persons) := by
+  have h := C14_inherits_nearest db hdb e he role
+  have h2 := C14_person_roles_joined (some db) [] e role persons hf hp
+  refine ⟨by simp [pythonEngineNames, templateNames, hp], ?_, ?_⟩
+  · rw [← h]; exact h2
+  · simp only [bstFieldValue]
+    rw [show e.findField role (some db) = some (joinWith Pybtex.andSep persons) from h2]
+
+theorem C14_python_names_partial_nonvacuous :
+    (get db "Parent").fields.getItem (s "editor") = none ∧
+    (get db "Parent").persons.getItem (s "editor") = some [s "E, One", s "E, Two"] ∧
+    pythonEngineNames db (get db "Parent") (s "editor") = Except.ok [s "E, One", s "E, Two"] := by decide
+
+/-- … but NOT for an inherited role, nor for the inputs of labels and sort keys (finding
+C14-python-engine-reads-own-persons): `@book{kid, title, crossref = {bk}}`,
+`@book{bk, author = {Yb, Bb}, year = 2001, …}`.  The reference lookup and the BibTeX engine
+give `kid` the author of `bk`; the `names` node of the Python engine raises
+`FieldIsMissing(author)`, and the year the alpha labels and the `author_year_title` sort key read
+(`entry.fields`) is absent although the `field` node of the same engine inherits it. -/
+theorem C14_python_names_neg :
+    let d := dbOf [(s "kid", entry [("title", "T"), ("crossref", "bk")] []),
+                   (s "bk", entry [("title", "B"), ("publisher", "P"), ("year", "2001")] [("author", ["Yb, Bb"])])]
+    DbWF d ∧ EntryWF (get d "kid") ∧
+    lookup d.toS (get d "kid").toS (s "author") = some (s "Yb, Bb") ∧
+    bstFieldValue d (get d "kid") (s "author") = BstValue.str (s "Yb, Bb") ∧
+    pythonEngineNames d (get d "kid") (s "author") = Except.error (s "author") ∧
+    pythonEngineField d (get d "kid") (s "year") = Except.ok (s "2001") ∧
+    styleReadsField (get d "kid") (s "year") = none := by decide +kernel
 
 end Pybtex.Props
